@@ -334,6 +334,19 @@ func (f *Frame) callContract(in ssa.Instruction, ct *Contract, callee *ssa.Funct
 		res = Val{T: "0"}
 	}
 	env2 := &specEnv{f: f, st: st, old: old, names: bind, callSite: true}
+	// ghost assignments of the callee at its return
+	for _, sc := range ct.Sets {
+		sortS := e.P.ghostSort(sc.Ghost)
+		nv := f.specTerm(sc.Expr, env2)
+		cur := e.getHeap(st, "ghost_"+sc.Ghost, sortS)
+		prev := e.getHeap(old, "ghost_"+sc.Ghost, sortS)
+		if sc.Cond != nil {
+			c := f.specBool(sc.Cond, env2)
+			e.assume(guard, eq(cur, ite(c, nv.T, prev)))
+		} else {
+			e.assume(guard, eq(cur, nv.T))
+		}
+	}
 	for _, en := range ct.Ensures {
 		t := f.specBool(en.Expr, env2)
 		e.assume(guard, t)
@@ -386,7 +399,11 @@ func (f *Frame) applyModifies(ct *Contract, callee *ssa.Function, env *specEnv, 
 			cond = f.specBool(m.Exprs[0], envOld)
 		}
 		for _, mt := range f.modTargets(m.Expr, envOld) {
-			targets[mt.heap] = append(targets[mt.heap], target{ref: mt.ref, lo: mt.lo, hi: mt.hi, cond: cond, all: mt.all})
+			tc := cond
+			if mt.cond != "" {
+				tc = and(cond, mt.cond)
+			}
+			targets[mt.heap] = append(targets[mt.heap], target{ref: mt.ref, lo: mt.lo, hi: mt.hi, cond: tc, all: mt.all})
 			w[mt.heap] = true
 			if _, ok := e.heapSort[mt.heap]; !ok {
 				e.heapSort[mt.heap] = mt.sort
@@ -459,7 +476,8 @@ type modTarget struct {
 	heap, sort string
 	ref        string
 	lo, hi     string
-	all        bool // every object of the type (anyof(*T)): the whole heap
+	all        bool   // every object of the type (anyof(*T)): the whole heap
+	cond       string // the target is only written under this condition (e.g. the dynamic type of an interface value)
 }
 
 // modTargets resolves a modifies expression into heap targets (evaluated in env).
@@ -568,7 +586,11 @@ func (f *Frame) wholeObject(v Val) []modTarget {
 		for _, T := range e.P.implementingTypes(v.Typ) {
 			if pt, ok := T.Underlying().(*types.Pointer); ok {
 				if _, isS := isStruct(pt.Elem()); isS {
-					out = append(out, f.structTargets(fmt.Sprintf("(i-ref %s)", v.T), pt.Elem())...)
+					c := fmt.Sprintf("(= (i-tag %s) %d)", v.T, e.tt().tagOf(T))
+					for _, t := range f.structTargets(fmt.Sprintf("(i-ref %s)", v.T), pt.Elem()) {
+						t.cond = c
+						out = append(out, t)
+					}
 				}
 			}
 		}
